@@ -405,6 +405,9 @@ def c14_units(tier, seed):
     for Y in ys + [ys[0] - 1, ys[-1] + 1]:
         for m in range(1, 13):
             us.append(dict(id=f"C14a[Y={Y},m={m}]", harness="HolidayUtil.VH_C14_Views", params={"Y": Y, "M": m}))
+    # fix-ups: one unit per block of 60 records (the table has ~820)
+    for lo in range(0, 900, 60):
+        us.append(dict(id=f"C14d[rec={lo}..{lo+59}]", harness="HolidayUtil.VH_C14_Fix", params={"LO": lo, "HI": lo + 59}))
     ys2 = ys[-6:] + ys[:2] if q else ys
     for Y in ys2:
         us += per_year("calendar.VH_C14_WorkdayStep", "C14b", [Y], {"N": 3 if q else 6})
@@ -412,8 +415,8 @@ def c14_units(tier, seed):
     return us
 
 
-PROPS["C14"] = dict(units=c14_units, bounds_text="every day of every month of every year present in the packed table (plus the year before and after): day lookup with symbolic day, month/year views, target view per day; workday stepping |n|<=3 (quick) / 6 (thorough) and pay rate for every day of the listed table years",
-                    outside="HolidayUtil.Fix with symbolic fix-up strings (in-place rewriting of the packed table is beyond the string model); larger step counts")
+PROPS["C14"] = dict(units=c14_units, bounds_text="every day of every month of every year present in the packed table (plus the year before and after): day lookup with symbolic day, month/year views, target view per day; workday stepping |n|<=3 (quick) / 6 (thorough) and pay rate for every day of the listed table years; fix-ups: for EVERY record of the table a one-segment replace (work flag toggled), remove, and add (same record thirty years later), table compared record by record afterwards",
+                    outside="fix-up strings of more than one segment, fix-ups that rename festivals (names argument), fix-ups on days with several records; larger step counts")
 
 
 def c09_units(tier, seed):
